@@ -6,6 +6,7 @@ package main
 
 import (
 	"fmt"
+	"strconv"
 	"strings"
 	"unicode"
 )
@@ -324,6 +325,9 @@ func (p *sparser) parsePrimary() (*sx, error) {
 		}
 		return e, nil
 	case t[0] == '"':
+		if u, err := strconv.Unquote(t); err == nil {
+			return &sx{op: "str", val: u}, nil
+		}
 		return &sx{op: "str", val: t[1 : len(t)-1]}, nil
 	case unicode.IsDigit(rune(t[0])):
 		var n int64
